@@ -52,10 +52,12 @@ Inductive tdef : Type :=
 | DInterface (fs : list field) (ifs : list N)
 | DUnion (ms : list N)
 | DEnum (vs : list N)
-| DInput (oneof : bool) (fs : list inval).
+| DInput (oneof : bool) (fs : list inval)
+| DBogus.                       (* an object in the type map that is not a GraphQL type *)
 
 Record directive : Type := mkDir
-  { d_name : N; d_haslocs : bool; d_args : list inval }.
+  { d_name : N; d_isdir : bool (* false: not a GraphQLDirective object *);
+    d_haslocs : bool; d_args : list inval }.
 
 Record raw_schema : Type := mkSchema
   { s_types : list (N * tdef);
@@ -73,6 +75,7 @@ Inductive rule_kind : Type :=
 | KNonObjectMember | KDuplicateMember
 | KOneOfNonNull | KOneOfDefault
 | KNonNullCycle | KDefaultCycle
+| KNotNamedType | KNotDirective
 | KCrash | KOutOfFuel | KDefaultNotValidated.
 
 Definition kind_code (k : rule_kind) : N :=
@@ -88,6 +91,7 @@ Definition kind_code (k : rule_kind) : N :=
   | KNonObjectMember => 24 | KDuplicateMember => 25
   | KOneOfNonNull => 26 | KOneOfDefault => 27
   | KNonNullCycle => 28 | KDefaultCycle => 29
+  | KNotNamedType => 30 | KNotDirective => 31
   | KCrash => 90 | KOutOfFuel => 91 | KDefaultNotValidated => 92
   end.
 
@@ -501,9 +505,11 @@ Definition validate_roots (rs : raw_schema) : list rule_kind :=
   ++ chk (nodupN (root_objects rs)) KRootsNotDistinct.
 
 Definition validate_directive (rs : raw_schema) (d : directive) : list rule_kind :=
-  name_ok (d_name d)
-  ++ chk (d_haslocs d) KDirectiveNoLocations
-  ++ flat_map (validate_inval rs) (d_args d).
+  if d_isdir d then
+    name_ok (d_name d)
+    ++ chk (d_haslocs d) KDirectiveNoLocations
+    ++ flat_map (validate_inval rs) (d_args d)
+  else [KNotDirective].
 
 Definition validate_field (rs : raw_schema) (f : field) : list rule_kind :=
   name_ok (f_name f)
@@ -572,18 +578,22 @@ Definition validate_input_field (rs : raw_schema) (oneof : bool) (iv : inval) : 
            ++ chk (negb (has_default (iv_default iv))) KOneOfDefault
       else []).
 
+Definition validate_type_body (rs : raw_schema) (n : N) (d : tdef) : list rule_kind :=
+  match d with
+  | DScalar _ | DBogus => []
+  | DObject fs ifs | DInterface fs ifs =>
+      validate_fields rs fs ++ validate_ifaces rs n fs ifs [] ifs
+  | DUnion ms => chk (negb (is_nil ms)) KEmptyUnion ++ validate_members rs [] ms
+  | DEnum vs => chk (negb (is_nil vs)) KEmptyEnum ++ flat_map name_ok vs
+  | DInput oneof fs =>
+      chk (negb (is_nil fs)) KEmptyInput ++ flat_map (validate_input_field rs oneof) fs
+  end.
+
 Definition validate_type (rs : raw_schema) (nd : N * tdef) : list rule_kind :=
-  let (n, d) := nd in
-  name_ok n
-  ++ match d with
-     | DScalar _ => []
-     | DObject fs ifs | DInterface fs ifs =>
-         validate_fields rs fs ++ validate_ifaces rs n fs ifs [] ifs
-     | DUnion ms => chk (negb (is_nil ms)) KEmptyUnion ++ validate_members rs [] ms
-     | DEnum vs => chk (negb (is_nil vs)) KEmptyEnum ++ flat_map name_ok vs
-     | DInput oneof fs =>
-         chk (negb (is_nil fs)) KEmptyInput ++ flat_map (validate_input_field rs oneof) fs
-     end.
+  match snd nd with
+  | DBogus => [KNotNamedType]          (* reported before the name is looked at *)
+  | d => name_ok (fst nd) ++ validate_type_body rs (fst nd) d
+  end.
 
 Definition cycle_reports {A} (k : rule_kind) (o : option (dstate A)) : list rule_kind :=
   match o with
